@@ -80,7 +80,7 @@ func c13Pool() []c13Item {
 		{canon.Ma(map[string]*canon.Node{k("a"): canon.Ma(map[string]*canon.Node{k("b"): in(2)})}), "nested-map"},
 		{canon.Ma(map[string]*canon.Node{k("a"): canon.Ve(in(10), in(20))}), "map-of-vec"},
 		{canon.Ve(k2("a"), k2("b")), "vector-of-keys"}, {canon.Li(canon.St("a"), k2("a")), "list-of-keys"}, {canon.Ve(k2("a")), "path-a"}, {canon.Ve(k2("a"), k2("b")), "path-ab"}, {canon.Ve(in(0)), "path-0"}, {canon.Ve(in(2), in(0)), "path-20"},
-		{in(-1), "int-neg"}, {in(0), "int-0"}, {in(1), "int-1"}, {in(2), "int-2"}, {in(3), "int-len"}, {in(4), "int-len+1"},
+		{in(-1), "int-neg"}, {in(0), "int-0"}, {in(1), "int-1"}, {in(2), "int-2"}, {in(3), "int-len"}, {in(4), "int-len+1"}, {in(97), "int-97-rune-of-key-a"},
 		{canon.St(""), "string-empty"}, {canon.St("abc"), "string"}, {canon.St("aé😀z"), "string-nonascii"},
 		{canon.Ma(map[string]*canon.Node{k("a"): canon.N(), k("b"): in(2)}), "map-nil-under-a"}, {canon.St("a"), "string-a"}, {canon.Ke("a"), "kw-a"}, {canon.Ke("b"), "kw-b"}, {canon.Ke("zz"), "kw-absent"},
 		{canon.Sy("a"), "symbol"}, {canon.Bo(true), "true"}, {canon.Bo(false), "false"},
@@ -101,6 +101,21 @@ func c13Pool() []c13Item {
 		c13Item{l(s("subvec"), canon.Ve(in(0), in(1), in(2), in(3)), in(1), in(3)), canon.Ve(in(1), in(2)), "subvector-window"},
 		c13Item{l(s("rest"), canon.Ve(in(0), in(1), in(2))), canon.Li(in(1), in(2)), "rest-view"},
 		c13Item{l(s("hash-map")), canon.Ma(nil), "empty-map-via-hash-map"},
+		// empty collections by origin: the same value can be backed by a nil or a non-nil Go map/slice depending on
+		// the builtin that produced it; every builtin must treat all of them alike (seeded C13-m15)
+		c13Item{l(s("set"), canon.N()), canon.Se(), "empty-set-via-set-nil"},
+		c13Item{l(s("set"), canon.Ve()), canon.Se(), "empty-set-via-set-empty-vector"},
+		c13Item{l(s("hash-set")), canon.Se(), "empty-set-via-hash-set"},
+		c13Item{l(s("dissoc"), canon.Se(k("a")), canon.Ke("a")), canon.Se(), "empty-set-via-dissoc"},
+		c13Item{l(s("dissoc"), l(s("set"), canon.N()), canon.Ke("a")), canon.Se(), "empty-set-via-dissoc-of-set-nil"},
+		c13Item{l(s("dissoc"), canon.Ma(map[string]*canon.Node{k("a"): in(1)}), canon.Ke("a")), canon.Ma(nil), "empty-map-via-dissoc"},
+		c13Item{l(s("merge"), canon.Ma(nil), canon.Ma(nil)), canon.Ma(nil), "empty-map-via-merge"},
+		c13Item{l(s("vector")), canon.Ve(), "empty-vector-via-vector"},
+		c13Item{l(s("subvec"), canon.Ve(in(1)), in(0), in(0)), canon.Ve(), "empty-vector-via-subvec"},
+		c13Item{l(s("list")), canon.Li(), "empty-list-via-list"},
+		c13Item{l(s("rest"), canon.Ve(in(1))), canon.Li(), "empty-list-via-rest"},
+		c13Item{l(s("rest"), canon.N()), canon.Li(), "empty-list-via-rest-nil"},
+		c13Item{l(s("concat")), canon.Li(), "empty-list-via-concat"},
 	)
 	return pool
 }
@@ -150,7 +165,21 @@ func c13Judge(c *fw.Ctx, env types.EnvType, name string, exprs []*canon.Node, mo
 	case colmodel.Unspecified:
 		c.Count("outcome."+name+".unspecified", 1)
 		if o.Err == nil {
-			return canon.FromGo(o.Val), false, out, o.Val
+			rv := canon.FromGo(o.Val)
+			for _, f := range out.Forbid {
+				if canon.Equal(rv, f) {
+					c.Count("forbidden_results_seen", 1)
+					c.Violate(fw.Violation{Key: name + ":" + sig + ":wrong-value-outside-domain", What: fmt.Sprintf("returned %s for an argument outside the domain (%s): an error is prescribed and this value is wrong under every reading", canon.Render(rv), out.Why), Input: input})
+					return nil, false, out, nil
+				}
+			}
+			if len(out.Forbid) > 0 {
+				c.Count("outside_domain_calls_with_forbidden_results_checked", 1)
+			}
+			return rv, false, out, o.Val
+		}
+		if len(out.Forbid) > 0 {
+			c.Count("outside_domain_calls_with_forbidden_results_checked", 1)
 		}
 		return nil, false, out, nil
 	case colmodel.Error:
